@@ -606,7 +606,13 @@ def r10_6(ctx):
     ctx.floor(n_sites, 4, "render / buffer-write sites in Console.print and Console.log")
 
 
-RULES = [r10_1, r10_2, r10_3, r10_4, r10_5, r10_6]
+def r10_7(ctx):
+    from .c19 import r19_6
+    from .common import borrow
+    borrow(ctx, r19_6, "R19.6", "R10.7", " [exactly the printed lines, in order, above the live frame: while a live display runs, print() goes through FileProxy, whose pending-line buffer must be neither lost nor replayed]")
+
+
+RULES = [r10_1, r10_2, r10_3, r10_4, r10_5, r10_6, r10_7]
 
 
 def _xcheck(ctx):
